@@ -40,6 +40,8 @@ def case_runs(cases, rnd, first_run):
             ops.append({"op": "check", "ip": ["v4", 2], "id": {"ref": 2}})      # issued to the mapped form
             ops.append({"op": "check", "ip": ["v4", 2], "id": {"ref": 0}})      # issued for another address
             ops.append({"op": "check", "ip": ["v6", 1], "id": {"ref": 0}})
+            ops.append({"op": "check", "ip": ["v6", 2], "id": {"ref": 1}})      # another IPv6 address, same /96
+            ops.append({"op": "check", "ip": ["v6", 300], "id": {"ref": 1}})
             ops.append({"op": "check", "ip": ["v4", 1], "id": {"foreign": 0}})  # another validator instance
             ops.append({"op": "check", "ip": ["v4", 1], "id": {"ref": 0, "flip": [rnd.randrange(64)]}})
             ops.append({"op": "check", "ip": ["v4", 1], "id": {"ref": 0, "flip": rnd.sample(range(64), 2)}})
